@@ -13,6 +13,7 @@ import Driver.WidthP
 import Driver.LenP
 import Driver.MixP
 import Driver.StoreP
+import Driver.ErrP
 import Driver.RefP
 import Driver.InlP
 import Driver.CcP
@@ -48,6 +49,7 @@ def handle (line : String) : String :=
   | "len" :: args => Driver.LenP.handle args
   | "mixed" :: args => Driver.MixP.handle args
   | "store" :: args => Driver.StoreP.handle args
+  | "errval" :: args => Driver.ErrP.handle args
   | "textflow" :: args => Driver.MixP.textHandle args
   | "textvoid" :: args => Driver.MixP.voidHandle args
   | "width" :: args => Driver.WidthP.handle args
